@@ -22,7 +22,7 @@ def run(ctx):
     lib_gatefn.gate_spec(ctx, P)
     gate = set(lib_gatefn.GATE_FUNCS) | {"check_offsets", "tsk_treeseq_init"}
     seen = lib_guards.analyse(ctx, P, funcs=gate)
-    lib_guards.presence(ctx, seen, funcs=gate)
+    lib_guards.presence(ctx, seen, funcs=gate, P=P)
     E = lib_err.discipline(ctx, P, ["tables", "trees"], funcs=gate | {"tsk_treeseq_load", "tsk_treeseq_loadf", "tsk_table_collection_check_offsets"})
     # Python: tree_sequence() validates the index the collection carries
     m = py.mod("tables")
